@@ -48,7 +48,7 @@ LEVEL = "exploration"
 USES_JAX = True
 CLEAR_EVERY = 12
 RECYCLE_AFTER = 40
-BUDGET_S = {"quick": 600, "thorough": 2400}
+BUDGET_S = {"quick": 600, "thorough": 3600}
 RULE = (
     "full product routine x batch size N x termination pattern in {0,1}^N (or {0,1}^(N*H) for MR.Q) x reward "
     "vector x parameter set (init seed, scale) x optimizer kind (SGD 0.1 / Adam 0.1) x call mode, each on a "
